@@ -56,6 +56,7 @@ type updMempool struct {
 	mu      sync.Mutex
 	remain  map[int64]int
 	late    int64
+	lateWG  sync.WaitGroup
 	id      int
 }
 
@@ -79,7 +80,9 @@ func (m *updMempool) Update(h int64, txs types.Txs, res []*abci.ResponseDeliverT
 func (m *updMempool) FlushAppConn() error {
 	err := m.Mempool.FlushAppConn()
 	k := atomic.AddInt64(&m.late, 1)
+	m.lateWG.Add(1)
 	go func() {
+		defer m.lateWG.Done()
 		_ = m.Mempool.CheckTx(types.Tx(fmt.Sprintf("late-%d-%d=v", m.id, k)), nil, mempl.TxInfo{SenderID: 999})
 	}()
 	time.Sleep(150 * time.Microsecond)
@@ -203,8 +206,15 @@ func runOneB(c *verdict.Ctx, idx int, tmp string) {
 	}
 	atomic.StoreInt32(&stop, 1)
 	wg.Wait()
-	// let detached re-checks (v1) and async responses drain
+	mp.lateWG.Wait()
+	// let detached re-checks (v1) and async responses drain.  With a socket client also the trailing throttled
+	// Flush (sent 20 ms after the last request) must have been answered before the client is stopped: tendermint's
+	// socket client marks its in-flight requests done on Stop and panics ("negative WaitGroup counter") if one of
+	// their responses still arrives - a teardown matter outside the property that used to kill the child batch
 	time.Sleep(20 * time.Millisecond)
+	if bc.Client == "socket" {
+		time.Sleep(80 * time.Millisecond)
+	}
 	evMu.Lock()
 	evs := append([]bEvent{}, events...)
 	evMu.Unlock()
@@ -366,19 +376,24 @@ func runBChild(c *verdict.Ctx) {
 	n := c.N(32, 800)
 	from := 0
 	races := 0
-	for attempt := 0; from < n && attempt < 12; attempt++ {
+	const batch = 40 // a crash of the child costs at most this many single-case re-runs
+	for attempt := 0; from < n && attempt < 64; attempt++ {
+		to := from + batch
+		if to > n {
+			to = n
+		}
 		evp := filepath.Join(tmp, fmt.Sprintf("evidence-%d.json", attempt))
 		progress := filepath.Join(tmp, fmt.Sprintf("progress-%d", attempt))
 		errLog := filepath.Join(tmp, fmt.Sprintf("stderr-%d", attempt))
 		ef, _ := os.Create(errLog)
 		cmd := exec.Command(bin, "--tier", c.Tier, "C05")
 		cmd.Env = append(os.Environ(), "VERIF_C05_STAGE=b", "VERIF_EVIDENCE_PATH="+evp, "VERIF_C05B_PROGRESS="+progress,
-			fmt.Sprintf("VERIF_C05B_FROM=%d", from), "GORACE=halt_on_error=0 log_path="+filepath.Join(tmp, fmt.Sprintf("race-%d", attempt)))
+			fmt.Sprintf("VERIF_C05B_FROM=%d", from), fmt.Sprintf("VERIF_C05B_TO=%d", to), "GORACE=halt_on_error=0 log_path="+filepath.Join(tmp, fmt.Sprintf("race-%d", attempt)))
 		cmd.Stdout, cmd.Stderr = os.Stdout, ef
 		err := cmd.Run()
 		ef.Close()
 		if merr := c.MergeChild(evp, ""); merr == nil {
-			from = n // the child ran to the end
+			from = to // the child ran its batch to the end
 			_ = err
 		} else {
 			// crashed: find the highest case index it had started
@@ -405,7 +420,7 @@ func runBChild(c *verdict.Ctx) {
 			c.Set(fmt.Sprintf("c05b_child_crash_%d", attempt), map[string]interface{}{"cases_in_flight_up_to": last, "panic": msg})
 			// the cases of the crashed batch are run again one per process, so that one crashing case does not
 			// take the others' histories with it; only a case that crashes on its own stays inconclusive
-			for k := from; k <= last && k < n; k++ {
+			for k := from; k <= last && k < to; k++ {
 				evk := filepath.Join(tmp, fmt.Sprintf("evidence-%d-case-%d.json", attempt, k))
 				ck := exec.Command(bin, "--tier", c.Tier, "C05")
 				ck.Env = append(os.Environ(), "VERIF_C05_STAGE=b", "VERIF_EVIDENCE_PATH="+evk, fmt.Sprintf("VERIF_C05B_FROM=%d", k), fmt.Sprintf("VERIF_C05B_TO=%d", k+1),
